@@ -107,6 +107,14 @@ func prlimitBin() string {
 }
 
 func runBinaryLimited(dir string, variant uint64, args []string, stdin *string, tz string, fsize int64) (*BinResult, error) {
+	if fsize > 0 {
+		return runBinaryWrapped(dir, variant, args, stdin, tz, []string{prlimitBin(), fmt.Sprintf("--fsize=%d", fsize)})
+	}
+	return runBinaryWrapped(dir, variant, args, stdin, tz, nil)
+}
+
+// runBinaryWrapped: wrap (prlimit ..., strace ...) is put in front of the binary's command line.
+func runBinaryWrapped(dir string, variant uint64, args []string, stdin *string, tz string, wrap []string) (*BinResult, error) {
 	// the directory argument as a user might type it: plain, with a trailing slash, or through a
 	// symbolic link followed by ".." (which the kernel resolves physically, not textually)
 	argDir := dir
@@ -135,8 +143,8 @@ func runBinaryLimited(dir string, variant uint64, args []string, stdin *string, 
 		full = append(full, "-v")
 	}
 	cmd := exec.Command(gopkiBin(), full...)
-	if fsize > 0 {
-		cmd = exec.Command(prlimitBin(), append([]string{fmt.Sprintf("--fsize=%d", fsize), gopkiBin()}, full...)...)
+	if len(wrap) > 0 {
+		cmd = exec.Command(wrap[0], append(append(append([]string{}, wrap[1:]...), gopkiBin()), full...)...)
 	}
 	if tz == "" {
 		tz = "UTC"
